@@ -103,6 +103,24 @@ class Module:
             n = self.parents.get(n)
         return n
 
+    def toplevel_names(self):
+        """Names bound at module level (imports, defs, classes, assignments)."""
+        if getattr(self, '_toplevel', None) is None:
+            out = set()
+            for st in ast.walk(self.tree):
+                if isinstance(st, (ast.Import, ast.ImportFrom)):
+                    for a in st.names:
+                        out.add((a.asname or a.name).split('.')[0])
+            for st in self.tree.body:
+                if isinstance(st, (ast.FunctionDef, ast.ClassDef)):
+                    out.add(st.name)
+                elif isinstance(st, ast.Assign):
+                    for t in st.targets:
+                        if isinstance(t, ast.Name):
+                            out.add(t.id)
+            self._toplevel = out
+        return self._toplevel
+
     def functions(self):
         for q, nodes in self.index().items():
             for n in nodes:
@@ -443,3 +461,32 @@ def finish(chk: Check, seed=0):
         print(f'ANALYSIS-ERROR property={chk.pid}: {len(chk.shape_mismatch)} function(s) no longer have the shape a rule reads; the rule cannot decide them')
         return 2
     return 0
+
+
+def resolve_collection(m, fn, expr, _depth=0, dicts=False):
+    """Elements of a literal collection, looking through tuple()/frozenset()/set()/list()
+    wrappers and through a name that is bound exactly once - in `fn` or at module level.
+    Returns a list of element expressions, or None when the shape is not recognised."""
+    if _depth > 4:
+        return None
+    if isinstance(expr, (ast.Tuple, ast.List, ast.Set)):
+        return list(expr.elts)
+    if isinstance(expr, ast.Dict):
+        return list(expr.keys) if dicts else None
+    if isinstance(expr, ast.Call) and call_name(expr) in ('tuple', 'frozenset', 'set', 'list') and len(expr.args) == 1:
+        return resolve_collection(m, fn, expr.args[0], _depth + 1, dicts)
+    if isinstance(expr, ast.Name):
+        binds = []
+        if fn is not None:
+            for st in ast.walk(fn):
+                if isinstance(st, ast.Assign) and any(isinstance(t, ast.Name) and t.id == expr.id for t in st.targets):
+                    binds.append(st.value)
+                elif isinstance(st, (ast.AugAssign, ast.AnnAssign)) and isinstance(st.target, ast.Name) and st.target.id == expr.id:
+                    binds.append(None)
+        if not binds:
+            for st in m.tree.body:
+                if isinstance(st, ast.Assign) and any(isinstance(t, ast.Name) and t.id == expr.id for t in st.targets):
+                    binds.append(st.value)
+        if len(binds) == 1 and binds[0] is not None:
+            return resolve_collection(m, fn, binds[0], _depth + 1, dicts)
+    return None
